@@ -14,7 +14,29 @@ pub fn run(scn: &Obj) -> Value {
 /// The real operation behind a machine action: (value written, observation flag).
 fn apply<const B: usize, const L: usize>(op: &str, a: Uint<B, L>, b: Uint<B, L>, m: Uint<B, L>, k: usize) -> (Uint<B, L>, bool) {
     type U<const B: usize, const L: usize> = Uint<B, L>;
+    // the operator-trait operations have several shapes (by value, by reference, assigning) that must all honour the same
+    // contract; which one a step uses is a deterministic function of its operands, so that every shape is reached
+    let shape = (a.as_limbs().first().copied().unwrap_or(0) as usize).wrapping_add(k).wrapping_add(b.as_limbs().first().copied().unwrap_or(0) as usize >> 1) % 3;
     match op {
+        "and" if shape == 1 => (&a & &b, false),
+        "and" if shape == 2 => { let mut x = a; x &= &b; (x, false) }
+        "or" if shape == 1 => (&a | b, false),
+        "or" if shape == 2 => { let mut x = a; x |= b; (x, false) }
+        "xor" if shape == 1 => (a ^ &b, false),
+        "xor" if shape == 2 => { let mut x = a; x ^= &b; (x, false) }
+        "not" if shape >= 1 => (!&a, false),
+        "wneg" if shape == 1 => (-&a, !a.is_zero()),
+        "wneg" if shape == 2 => (-a, !a.is_zero()),
+        "wadd" if shape == 1 => (&a + &b, false),
+        "wadd" if shape == 2 => { let mut x = a; x += &b; (x, false) }
+        "wsub" if shape == 1 => (&a - b, false),
+        "wsub" if shape == 2 => { let mut x = a; x -= b; (x, false) }
+        "wmul" if shape == 1 => (a * &b, false),
+        "wmul" if shape == 2 => { let mut x = a; x *= &b; (x, false) }
+        "shl" if shape == 1 => (a << &k, false),
+        "shl" if shape == 2 => { let mut x = a; x <<= k; (x, false) }
+        "shr" if shape == 1 => (a >> &k, false),
+        "shr" if shape == 2 => { let mut x = a; x >>= k; (x, false) }
         "wadd" => (a.wrapping_add(b), false),
         "wsub" => (a.wrapping_sub(b), false),
         "wmul" => (a.wrapping_mul(b), false),
